@@ -109,6 +109,12 @@ def run(repo, rep, tier):
     from . import c02
     L.borrow(repo, rep, "R01.5", "C02", lambda r, p: c02._quote_paths(
         r, p, tier), ("BAD", "class-missing"), minimum=3)
+    # 'tal:attributes ... with default keeping the original markup': the
+    # merge of statement entries into the static attribute list keeps every
+    # other attribute where it was (C07 owns the merge rules)
+    from . import c07
+    L.borrow(repo, rep, "R01.5", "C07", c07._prepare,
+             ("index:", "dynamic-merge", "keep-lexical"), minimum=4)
     _sinks(repo, rep)
     _cache_scope(repo, rep, func, res, steps)
     _tables(repo, rep, func)
